@@ -4,11 +4,13 @@ CONSTANTS
   N = 3
   Byz <- NoByz
   Nodes <- Obs1
-  Blk0 <- T3
+  Blk0s <- ST3
   MaxBlocks = 9
   MaxRestarts = 1
   ByzMode = "branch"
   ByzRanges <- R123
+  Runs = FALSE
+  BadKinds <- OnlyOk
   Fixes <- NoFix
 VIEW view
 PROPERTIES NoForkBelowLib
